@@ -1,7 +1,7 @@
 /-
   C01 — dictable behaves as a rectangular list of records under any operation history.
   Property theorems only (helper lemmas: PygProofs/Lemmas/TableLemmas, TableRect, TableRows, TableCons, TableNodup,
-  SliceLemmas, TableAbs, TableAbs2, TableAbsHeap, TableCall, TableMaskPlain, TableRagged, TableAlias).
+  SliceLemmas, TableAbs, TableAbs2, TableAbsHeap, TableCall, TableMaskPlain, TableRagged, TableAlias, TableAliasSim).
 
   The model is the history machine `step : Heap → Op → Heap × Out` of PygModel/Table.lean; `run` folds it
   over an operation list.  Clauses of the property text and the theorems that state them:
@@ -24,13 +24,14 @@
     * stretch .......................................................... `concat_assoc`, `mask_col`
     * review round 2: masks against a reading without `zipper` ........ `abs_getMask_plain`, `mask_plain_exact`, `mask_one_row_repeats`
                       rows + header, ragged rows ....................... `new_rows_ragged`, `spec_new_rows_ragged`, `new_rows_ragged_header1`
-                      aliasing (handles as pointers, TableAlias.lean) .. `rframe_step`, `ralias_shared`, `rrect_step`, `rabs_step`
+                      aliasing (handles as pointers, TableAlias.lean) .. `rframe_step`, `ralias_shared`, `rrect_step`, `rabs_step`, `rstep_noalias`, `rrun_noalias`
 -/
 import PygProofs.Lemmas.TableAbsHeap
 import PygProofs.Lemmas.TableCall
 import PygProofs.Lemmas.TableMaskPlain
 import PygProofs.Lemmas.TableRagged
 import PygProofs.Lemmas.TableAlias
+import PygProofs.Lemmas.TableAliasSim
 
 namespace Pyg.Props.C01
 open Pyg Table Abs
@@ -2036,5 +2037,30 @@ example : rheap0.get 0 = some tbl ∧ (2 : Nat) ≤ rheap0.ptr.length ∧ rheap0
   · exact ⟨1, by decide⟩
 example : rheap0.get 1 = some [("q", [.int 1])] ∧ (ROp.op (.setitem 2 "c" (.one .none))).rebinds ≠ some 1 ∧
     (ROp.op (.setitem 2 "c" (.one .none))).writesCell rheap0 ≠ rheap0.ptr[1]? := by decide
+
+/-- **the reference heap is a conservative extension of the value heap**: while no two handles share a
+cell (`ptr.Nodup`) an operation of the value machine, run through `rstep`, gives — seen through the handles
+(`RefHeap.vheap`) — exactly the heap and the outcome of `step`; and it creates no alias.  So everything
+proved about `step` / `run` (`abs_run`, ...) holds of `rstep` as long as `bindAlias` is not used; aliases
+arise only from `bindAlias`. -/
+theorem rstep_noalias (s : RefHeap) (hw : s.WF) (hinj : s.ptr.Nodup) (o : Op) :
+    (rstep s (.op o)).1.vheap = (step s.vheap o).1 ∧ (rstep s (.op o)).2 = (step s.vheap o).2 ∧
+    (rstep s (.op o)).1.ptr.Nodup :=
+  ⟨(rstep_op_sim s hw hinj o).1, (rstep_op_sim s hw hinj o).2, rstep_op_nodup s hw hinj o⟩
+
+/-- any history without `bindAlias`, from any alias-free reference heap (e.g. the empty one): the handles
+read what `run` computes -/
+theorem rrun_noalias (ops : List Op) (s : RefHeap) (hw : s.WF) (hinj : s.ptr.Nodup) :
+    (rrun s (ops.map .op)).vheap = run s.vheap ops := by
+  induction ops generalizing s with
+  | nil => rfl
+  | cons o ops ih =>
+    simp only [List.map_cons, rrun, run]
+    rw [ih _ (rwf_step s (.op o) hw) (rstep_noalias s hw hinj o).2.2, (rstep_noalias s hw hinj o).1]
+
+theorem rrun_noalias_empty (ops : List Op) : (rrun .empty (ops.map .op)).vheap = run [] ops :=
+  rrun_noalias ops .empty (by intro c hc; cases hc) (by simp [RefHeap.empty])
+
+example : rheap0.WF ∧ ¬ rheap0.ptr.Nodup ∧ (RefHeap.mk [1, 0] rheap0.cells).ptr.Nodup := by decide
 
 end Pyg.Props.C01
